@@ -27,6 +27,12 @@ def check(model, tier):
     payload.r10_3_evaluate_once(ctx)
     payload.r10_4_who_may_attach(ctx)
     optional_rules.r_optional_truthiness(ctx, "R10.5", {"payload"})
+    from ..rules import processor as processor_rules
+    from ..rules import structure
+
+    processor_rules.r07_8_materialize_as(ctx, rule="R10.6")
+    structure.r_marker_reapply(ctx, "R10.7")
+    structure.r_select_reapply(ctx, "R10.8")
     run.assume("CPython attribute semantics; code outside the package does not call object.__setattr__ on relations")
     run.assume("single-threaded histories (the property does not quantify over schedules)")
     return run
